@@ -35,6 +35,9 @@ def _hook(event, args):
                 writing = True
             if writing:
                 _state["events"].append(("open-for-write", str(path), str(mode)))
+        elif event in ("os.rename", "os.remove") and args and isinstance(args[0], (str, bytes, os.PathLike)):
+            # source and destination kept apart: a temporary file renamed onto a documented output is a way of writing it
+            _state["events"].append((event, os.fsdecode(args[0]), os.fsdecode(args[1]) if event == "os.rename" else ""))
         elif event in _MUTATING:
             _state["events"].append((event, repr(args)[:200], ""))
     except Exception:
@@ -120,6 +123,7 @@ class IOWindow:
                 setattr(self, name, t.read())
                 t.close()
         after = _listing(self.cwd)
+        self._after = after
         self.created = sorted(set(after) - set(self._before))
         self.removed = sorted(set(self._before) - set(after))
         self.changed = sorted(k for k in after if k in self._before and after[k] != self._before[k])
